@@ -149,6 +149,8 @@ def iter_items(interp, env, v):
         return list(v.fields)
     if isinstance(v, Agg) and v.name == "core::option::Option":
         return list(v.fields[:1]) if v.variant == "Some" else []
+    if isinstance(v, Agg) and v.name == "core::result::Result":
+        return list(v.fields[:1]) if v.variant == "Ok" else []
     return None
 
 
@@ -311,6 +313,8 @@ def coll_oracle(interp, env, f, args, t, bb, path):
         return v0
     if nm == "into_iter" and isinstance(v0, Agg) and v0.kind in ("array", "tuple"):
         return It(v0.fields)
+    if nm == "into_iter" and isinstance(v0, Agg) and v0.name in ("core::option::Option", "core::result::Result"):
+        return It(v0.fields[:1] if v0.variant in ("Some", "Ok") else [])
     if nm == "multizip" and isinstance(v0, Agg) and v0.kind == "tuple":
         lists = [iter_items(interp, env, x) for x in v0.fields]
         if any(l is None for l in lists):
